@@ -71,7 +71,9 @@ def tlc(workdir, module, cfg, workers, timeout, simulate=None, seed=None, outfil
     meta = os.path.join(workdir, "meta_" + module)
     cmd = ["tlc", "-workers", str(workers), "-metadir", meta, "-config", cfg]
     if simulate:
-        cmd += ["-simulate", "num=%d" % simulate["num"], "-depth", str(simulate["depth"])]
+        # num is per worker
+        per = max(1, (simulate["num"] + workers - 1) // workers)
+        cmd += ["-simulate", "num=%d" % per, "-depth", str(simulate["depth"])]
         if seed is not None:
             cmd += ["-seed", str(seed)]
     cmd.append(module)
@@ -110,7 +112,7 @@ def stage1(scratch, module, constants, invariants, simulate=None, seed=0, timeou
     cfg = os.path.join(d, "gen.cfg")
     write_cfg(cfg, spec, constants, invariants)
     t0 = time.time()
-    rc, outp = tlc(d, module, "gen.cfg", 1 if simulate else workers, timeout, simulate=simulate, seed=seed)
+    rc, outp = tlc(d, module, "gen.cfg", workers, timeout, simulate=simulate, seed=seed)
     beh = os.path.join(scratch, "beh.json")
     n = 0
     states = distinct = 0
